@@ -356,8 +356,17 @@ func runC05(rc *RunCtx) {
 				}
 			}
 		case 9: // restart on the durable state
-			note("restart")
-			nh, err := Reboot(disk.Fork(s), h)
+			nd := disk.Fork(s)
+			faultyRestore := tp.Pick(3) == 0 && len(disk.RawKeys("sys/expire/id/")) > 0
+			if faultyRestore {
+				// one storage read of the lease restore fails: the node may
+				// give up (seal itself) or carry on, but it must not stay
+				// active with stored leases it does not track
+				nd.FailPrefix, nd.FailOps = "sys/expire/id/", "get tx-get"
+				nd.FailNth = 1 + tp.Pick(len(disk.RawKeys("sys/expire/id/")))
+			}
+			note("restart (restore read fault: %v)", faultyRestore)
+			nh, err := Reboot(nd, h)
 			if err != nil {
 				panic(err)
 			}
@@ -365,10 +374,35 @@ func runC05(rc *RunCtx) {
 			h = nh
 			disk = nh.Disk
 			old.Shutdown()
+			s.Faults["crash"]++
+			if faultyRestore {
+				s.SetControlled()
+				s.Drain(10*time.Second, 2*time.Second)
+				s.PassThrough()
+				if nd.FailHits > 0 {
+					s.Faults["err-na"]++
+					s.Probe("restore_read_fault_fired")
+				}
+				nd.FailNth = 0
+				if h.Core.Sealed() {
+					// gave up: bring it back on the same durable state
+					s.Probe("node_sealed_itself_after_restore_fault")
+					note("node sealed itself; restart again")
+					nh2, err := Reboot(disk.Fork(s), h)
+					if err != nil {
+						panic(err)
+					}
+					old := h
+					h = nh2
+					disk = nh2.Disk
+					old.Shutdown()
+				} else if nd.FailHits > 0 {
+					s.Probe("node_stayed_active_after_restore_fault")
+				}
+			}
 			if !checkTracking("after-restart") {
 				return
 			}
-			s.Faults["crash"]++
 		case 10:
 			if tp.Pick(2) == 0 { // tune a mount maximum
 				m := []string{"rec", "authrec"}[tp.Pick(2)]
